@@ -421,6 +421,11 @@ def pool_schedule_binding(chk, scheds, unordered, tier):
                                       f"misorientation_index({system}) returned non-finite values {exp.tolist()} for 20 random stacks of {n} small snapshots", dict(kind="pool-binding-precondition"))
                         chk.skip("pool schedule binding skipped: misorientation_index is not finite on small random snapshots")
                         return
+                    if np.any(exp < -1e-3) or np.any(exp > 1.0 + 1e-3):
+                        chk.violation(dict(clause="range", system=system, texture="random-small"),
+                                      f"misorientation_index({system}) returned values outside [0, 1]: {exp.tolist()}", dict(kind="pool-binding-precondition"))
+                        chk.skip("pool schedule binding skipped: misorientation_index is outside [0, 1] on small random snapshots")
+                        return
                     raise MachineryError("could not draw a stack with pairwise distinct finite M-indices")
                 stacks[(n, form, system)] = (st, exp)
     variants = [("list", "triclinic"), ("ndarray", "orthorhombic"), ("list", "orthorhombic"), ("ndarray", "triclinic")]
